@@ -50,12 +50,13 @@ class Exc:
 
 
 class Outcome:
-    __slots__ = ("kind", "st", "val")
+    __slots__ = ("kind", "st", "val", "site")
 
-    def __init__(self, kind, st, val=None):
+    def __init__(self, kind, st, val=None, site=None):
         self.kind = kind      # normal | return | raise | break | continue
         self.st = st
         self.val = val
+        self.site = site      # for 'return': ordinal of the return statement
 
     def __repr__(self):
         return "Outcome(%s)" % self.kind
